@@ -630,8 +630,8 @@ var profiles = []profile{
 	{"typemix", [8]int{20, 35, 0, 0, 35, 10, 0, 0}, 50},
 	{"del", [8]int{15, 40, 15, 15, 0, 10, 5, 0}, 0},
 	{"all", [8]int{15, 25, 10, 10, 25, 15, 0, 0}, 40},
-	{"fresh", [8]int{30, 25, 0, 0, 0, 10, 35, 0}, 0},   // many fresh keys, every thread touches each key once, in step
-	{"shiftm", [8]int{20, 30, 0, 0, 0, 10, 10, 30}, 0}, // matching shifts against writers of the same records
+	{"fresh", [8]int{30, 25, 0, 0, 0, 10, 35, 0}, 0}, // many fresh keys, every thread touches each key once, in step
+	{"shiftm", [8]int{35, 20, 0, 0, 0, 5, 5, 35}, 0}, // matching shifts against writers of the same records
 }
 
 var modes = []string{"imm", "def", "mem"} // write interval 0 | 1 s | in-memory
@@ -714,6 +714,9 @@ func genRound(rng *common.Rng, id int, tier string) roundSpec {
 	sp.prof = profiles[rng.Intn(len(profiles))]
 	if id%6 == 5 {
 		sp.prof = profiles[6] // a guaranteed share of fresh-key rounds
+	}
+	if id%6 == 2 {
+		sp.prof = profiles[7] // ... and of matching-shift rounds
 	}
 	if only := os.Getenv("C09_ONLY"); only != "" { // experiments: one profile only
 		for _, p := range profiles {
